@@ -82,6 +82,8 @@ def body(chk):
                         'admissibility: L != 0, Gamma != 1, rho > 0 (r > 0 for the axisymmetric pair); denominators of the evaluated expressions nonzero']
     chk.bounds = dict(values='unbounded (all real parameter values and points satisfying the admissibility assumptions)', loops='none')
     val = flow_family(chk, w, FAMILY, None, doc_fields)
+    import c09
+    c09.add_type_purity(chk, ['euler_1d', 'euler_2d', 'euler_3d', 'euler_transient_', 'axisymmetric_euler', 'axi_euler_transient'])
     chk.solve_all()
     pde.validate_terms(chk, val, npoints=1 if chk.tier == 'quick' else 4)
 
